@@ -1241,6 +1241,8 @@ func (fc *FnCtx) execRange(st *State, x *ast.RangeStmt) []Outcome {
 			fc.applyUsesScope(o.st, fmt.Sprintf("loop%d.end", n), sc)
 			fc.checkInvariants(o.st, ls, n, fc.phaseOf(o), sc, x.Pos())
 		case o.kind == oBreak && (o.label == "" || o.label == lbl):
+			// loopN.break: an early exit of the loop (clauses there see the key of the iteration that breaks)
+			fc.applyUsesScope(o.st, fmt.Sprintf("loop%d.break", n), scope)
 			outs = append(outs, Outcome{kind: oFall, st: o.st})
 		default:
 			outs = append(outs, o)
